@@ -293,6 +293,13 @@ def _stride_views(L, rng):
             row = L["d"][r * cols:(r + 1) * cols]
             buf += row + [pad(row[-1])]
         L.update(d=buf, st=[cols + 1, 1], off=1)
+    elif L.get("c") == "Numpy" and "shape" not in L and "st" not in L and "p" not in L and L["d"] and rng.random() < 0.25:
+        # a one-dimensional leaf that is every second element of a wider buffer (x[1::2] of a NumPy array)
+        pad = (lambda v: 1 - v) if L["dt"] == "b" else (lambda v: v + 50)
+        buf = []
+        for v in L["d"]:
+            buf += [pad(v), v]
+        L.update(d=buf, shape=[len(buf) // 2], st=[2], off=1)
     if "x" in L:
         _stride_views(L["x"], rng)
     for x in L.get("xs", []):
